@@ -76,3 +76,8 @@ Definition agree_C05 (a b : out) : bool :=
                        && option_eqb N.eqb (s_assert_size x) (s_assert_size y)
                        && list_eqb str_n_eqb (s_assert_offsets x) (s_assert_offsets y))
            (o_structs a) (o_structs b).
+
+(** C06 reads the field lists *)
+Definition agree_C06 (a b : out) : bool :=
+  list_eqb (fun x y => String.eqb (s_name x) (s_name y) && list_eqb field_eqb (s_fields x) (s_fields y))
+           (o_structs a) (o_structs b).
